@@ -644,4 +644,12 @@ def rule_r5(ctx):
     return rr
 
 
-RULES = [("C05-R1", rule_r1), ("C05-R2", rule_r23), ("C05-R3", rule_r3_wrapper), ("C05-R4", rule_r4), ("C05-R5", rule_r5), ("C05-IB", rule_ib)]
+def rule_siblings(ctx):
+    """The property quantifies over the option combinations: the sibling templates of an option
+    branch must be equivalent (rule C01-R2, restricted here to the control-flow statements)."""
+    from .c01 import rule_r2
+
+    return rule_r2(ctx)
+
+
+RULES = [("C01-R2", rule_siblings), ("C05-R1", rule_r1), ("C05-R2", rule_r23), ("C05-R3", rule_r3_wrapper), ("C05-R4", rule_r4), ("C05-R5", rule_r5), ("C05-IB", rule_ib)]
